@@ -92,6 +92,10 @@ def to_dg(c):
 
 DEC_ASM = dict(family="dec", variant="asm", kview=kview2, mview=mview_dec)
 DEC_GO = dict(family="dec", variant="noasm", transform=to_dg, kview=kview2, mview=mview_dec)
+def to_dpg(c):
+    return "DPG" + c[2:] if c.startswith("DP ") else c
+GUARD_ASM = dict(family="decguard", variant="asm", kview=kview1, mview=mview_dec)
+GUARD_GO = dict(family="decguard", variant="noasm", transform=to_dpg, kview=kview1, mview=mview_dec)
 CMP = dict(family="cmp", variant="asm", kview=kview1, mview=mview_cmp)
 XXH = dict(family="xxh", variant="asm", mview=mview_eq, nontrivial=lambda c, i: True)
 
@@ -310,7 +314,7 @@ PROPS = {
     "C16": dict(runs=[FR("fr", judge=j_c16)], theorems=T("C16", "c16_writeTo", "c16_read", "c16_read_no_error", kind=_K64)),
     "C17": dict(runs=[FW("fwlife", judge=j_c17w), FR("fr", judge=j_c17r)], theorems=[]),
     "C01": dict(runs=[dict(CMP, judge=j_c01)], theorems=T_FAST + T_HC),
-    "C03": dict(runs=[dict(DEC_ASM, judge=j_c03), dict(DEC_GO, judge=j_c03)], theorems=T("C04go", "c03_go") + T("C03asm", "c03_asm")),
+    "C03": dict(runs=[dict(DEC_ASM, judge=j_c03), dict(DEC_GO, judge=j_c03), dict(GUARD_ASM, judge=j_c03), dict(GUARD_GO, judge=j_c03)], theorems=T("C04go", "c03_go") + T("C03asm", "c03_asm")),
     "C04": dict(runs=[dict(DEC_ASM, judge=j_c04), dict(DEC_GO, judge=j_c04)], theorems=T_GO + T_ASM),
     "C10": dict(runs=[dict(CMP, judge=j_c10)], theorems=T("C01fast", "c11_fast") + T("C01hc", "c11_hc")),
     "C11": dict(runs=[dict(CMP, judge=j_c11)], theorems=T("C01fast", "c11_fast") + T("C01hc", "c11_hc")),
